@@ -92,6 +92,7 @@ func runC14(c *harness.Ctx, idx int) {
 	}
 	// locate every nocopy field occurrence and check its view
 	var extents []ncExtent
+	walkUnaligned = 0
 	nonEmptyNC, ordinary := 0, 0
 	lens := ""
 	walkBoth(s, dst.Elem(), pr.Root, msg, "", func(st *schema.Struct, sv reflect.Value, n *wire.Node, path string) {
@@ -155,6 +156,12 @@ func runC14(c *harness.Ctx, idx int) {
 	c.Count("nocopy_views", int64(len(extents)))
 	if nonEmptyNC > 0 && ordinary > 0 {
 		c.NonTrivial()
+	}
+	if walkUnaligned > 0 {
+		// some map entries could not be aligned with the wire (equal-valued or NaN keys):
+		// the list of nocopy extents is incomplete, the remaining oracles would misfire
+		c.Tag("skipped:unalignable-map-entries")
+		return
 	}
 	// nothing else may touch the buffer
 	var pieces []mon.Piece
